@@ -214,7 +214,7 @@ def worker(ctx):
         wit = {"case": case_id, "shard": ctx.shard}
         try:
             try:
-                comp = sut_compiler.compile_schema(root, d, ["go", "py"], rng=rng, emit_kw=dict(semi=0.3, comments=0.2, path_style="random"))
+                comp = sut_compiler.compile_schema(root, d, ["go", "py"], rng=rng, emit_kw=dict(semi=0.3, comments=0.2, path_style="random", compact=0.15))
             except Exception as e:
                 harness.compile_failed(res, e, wit)
                 continue
